@@ -9,6 +9,11 @@ import Driver.WtoH
 import Driver.NumH
 import Driver.LinH
 import Driver.EnvH
+import Driver.ProgH
+import Driver.ExactH
+import Driver.XformH
+import Driver.BwdH
+import Driver.WIntH
 
 /-!
   crabdrv : line-protocol driver.  Reads cases on stdin, one per line
@@ -37,6 +42,12 @@ def dispatch (comp op : String) (args res : List Sexp) : Verdict :=
   | "lin" => handleLin op args res
   | "env" => handleEnv op args res
   | "pset" => handlePSet op args res
+  | "prog" => handleProg op args res
+  | "exact" => handleExact op args res
+  | "xf" => handleXf op args res
+  | "live" => handleLive op args res
+  | "bwd" => handleBwd op args res
+  | "wint" => handleWInt op args res
   | _ => .bad s!"unknown component {comp}"
 
 def handleLine (line : String) : Verdict :=
